@@ -26,6 +26,8 @@ property oracle on the real code's outputs.  Streams:
       over one passive listener (transfer_trace) vs the real dispatcher, and vs the plain-Python oracle
       "REST applies to exactly the next transfer command".
   (f) REST n + STOR/APPE on a MISSING file on all three backends: 451, nothing created, session goes on.
+      Sections 3c / 3d of the matrix: another user stats + lists the target DURING a slowed-down multi-block
+      transfer; backends whose close() fails after a partial flush (226 => exact, failed close => 451).
   (g) histories of uploads over SIBLING names (x.csv / x.json / x.part / x / x.tar.gz / ...), by one session
       after the other and by two sessions at once; after every completion reply the whole directory is
       read from the backend: every acknowledged file still has its bytes, nothing else exists.
@@ -34,6 +36,7 @@ Smoke test of the session driver:
     PYTHONPATH=/repo/src:. /venv/bin/python -c "from harness.props import c01; print(c01.smoke())"
 """
 import asyncio
+import errno
 import io
 import itertools
 import os
@@ -70,7 +73,7 @@ LEVEL_TEXT = (
     "C01_second_transfer_starts_at_0, C01_back_to_back (a restart offset is served to exactly the next transfer command), "
     "C01_stor_missing_file (REST n + STOR/APPE on a missing file: 451, nothing created), C01_upload_touches_its_own_file_only, "
     "C01_acknowledged_file_survives, C01_overlapping_uploads_independent (several files, sibling names, uploads in flight at once), "
-    "C01_refused_transfer_consumes_offset "
+    "C01_close_failure_no_reply (a failing close of the file: no completion reply), C01_refused_transfer_consumes_offset "
     "(a transfer refused before its worker runs consumes the offset too), C01_size_visible_after_226_whoever_looked (stat / "
     "listing steps inserted anywhere in the upload's statement sequence: the size reported after the 226 is the new one), the write_at lemmas, and the closed obligations "
     "C01_source_facts / C01_verb_modes / C01_source_programs on the regenerated facts; C01_model_is_program_denotation, "
@@ -265,13 +268,58 @@ class BufferedSlowCloseIO(aioftp.MemoryPathIO):
             node.content = io.BytesIO(file.getvalue())
 
 
+# backends whose close() FAILS: the file may not grow beyond CLOSE_LIMIT bytes and -- as with a buffered
+# file under a quota / ENOSPC / RLIMIT_FSIZE -- every write succeeds (the bytes sit in the buffer) and the
+# error surfaces in close(), after a partial flush.  Files that stay within the limit close normally.
+CLOSE_LIMIT = 12
+
+
+class FailCloseIO(BufferedSlowCloseIO):
+    @aioftp.pathio.universal_exception
+    async def close(self, file):
+        node = getattr(file, "_node", None)
+        if node is not None:
+            await asyncio.sleep(self.CLOSE_DELAY)
+            data = file.getvalue()
+            node.content = io.BytesIO(data[:CLOSE_LIMIT])
+            if len(data) > CLOSE_LIMIT:
+                raise OSError(errno.EFBIG, "File too large")
+
+
+class _QuotaFile:
+    """a real file object whose close() reports that the file outgrew the quota (after truncating it)"""
+
+    def __init__(self, f, path, writable):
+        self._f, self._path, self._writable = f, path, writable
+
+    def __getattr__(self, name):
+        return getattr(self._f, name)
+
+    def close(self):
+        self._f.close()
+        if self._writable and self._path.stat().st_size > CLOSE_LIMIT:
+            with open(self._path, "r+b") as g:
+                g.truncate(CLOSE_LIMIT)
+            raise OSError(errno.EFBIG, "File too large")
+
+
+class QuotaPathIO(aioftp.PathIO):
+    @aioftp.pathio.universal_exception
+    async def _open(self, path, mode="rb", *args, **kwargs):
+        return _QuotaFile(path.open(mode, *args, **kwargs), path, mode != "rb")
+
+
+CLOSE_FAULT_BACKENDS = ("failclose", "quota_pathio")
 BACKENDS = {
     "memory": aioftp.MemoryPathIO,
     "buffered": BufferedSlowCloseIO,
+    "failclose": FailCloseIO,
+    "quota_pathio": QuotaPathIO,
     "pathio": aioftp.PathIO,
     "asyncpathio": aioftp.AsyncPathIO,
 }
 FNAME = "f.bin"
+WATCHER = ("watcher", "pw")
 
 
 class Store:
@@ -287,7 +335,7 @@ class Store:
         return self.server.path_io_factory()
 
     def put(self, name, content):
-        if self.backend in ("memory", "buffered"):
+        if self.backend in ("memory", "buffered", "failclose"):
             mp = self._mem()
             root = mp.get_node(pathlib.PurePosixPath("/"))
             root.content[:] = [n for n in root.content if n.name != name]
@@ -296,7 +344,7 @@ class Store:
             (self.base / name).write_bytes(content)
 
     def get(self, name):
-        if self.backend in ("memory", "buffered"):
+        if self.backend in ("memory", "buffered", "failclose"):
             node = self._mem().get_node(pathlib.PurePosixPath("/") / name)
             return None if node is None else node.content.getvalue()
         p = self.base / name
@@ -319,6 +367,7 @@ def case_defaults(case):
         "chunks": [],
         "cblock": None,
         "pre": [],
+        "observe_during": None,  # [period, count]: another session stats + lists the target every `period` virtual s while the transfer runs
         "observe_before": None,  # None / "same" / "other" / "both": sessions that stat + list the target before the transfer
         "local_old": None,  # DOWNLOAD: previous content of the client's destination file (None = no such file)
         "stall": None,  # [t, d]: both directions of the data channel deliver nothing from t to t+d (virtual s) after connecting
@@ -398,7 +447,7 @@ def run_case(case):
     case = case_defaults(case)
     backend = case["backend"]
     base = None
-    if backend in ("pathio", "asyncpathio"):
+    if backend in ("pathio", "asyncpathio", "quota_pathio"):
         TMP_ROOT.mkdir(parents=True, exist_ok=True)
         base = TMP_ROOT / f"c01-{os.getpid()}-{random.getrandbits(48):012x}"
         base.mkdir()
@@ -428,7 +477,9 @@ async def _run_case(net, case, base):
     if case["block_size"] is not None:
         kw["block_size"] = case["block_size"]
     server = aioftp.Server(
-        [user],
+        # the observer of the other sessions logs in as a second user of the same tree, so that per-user
+        # speed limits slow the TRANSFER down and not the observer
+        [user, aioftp.User(*WATCHER, base_path=base if base is not None else "/", home_path="/")],
         path_io_factory=BACKENDS[backend],
         read_speed_limit=thr.get("server_read"),
         write_speed_limit=thr.get("server_write"),
@@ -516,12 +567,34 @@ async def _run_case(net, case, base):
         if case["observe_before"] in ("other", "both"):
             obs = aioftp.Client(passive_commands=("epsv",))
             await obs.connect("127.0.0.1", PORT)
-            await obs.login()
+            await obs.login(*WATCHER)
         res["before"] = {}
         if case["observe_before"] in ("same", "both"):
             res["before"]["same"] = await _observe(client, FNAME)
         if obs is not None:
             res["before"]["other"] = await _observe(obs, FNAME)
+        watcher = None
+        res["during"] = []
+        if case["observe_during"]:
+            if obs is None:
+                obs = aioftp.Client(passive_commands=("epsv",))
+                await obs.connect("127.0.0.1", PORT)
+                await obs.login(*WATCHER)
+            period, count = case["observe_during"]
+
+            transfer_done = asyncio.Event()
+
+            async def watch():
+                # until the transfer is over (at most `count` rounds): the control channel of the slowed-down
+                # session is slow too, so the data phase starts late -- the observer keeps looking throughout
+                for _ in range(count):
+                    if transfer_done.is_set():
+                        break
+                    await asyncio.sleep(period)
+                    res["during"].append((asyncio.get_running_loop().time(), await _observe(obs, FNAME)))
+
+            watcher = asyncio.get_running_loop().create_task(watch())
+        res["t_start"] = asyncio.get_running_loop().time()
         if verb in ("STOR", "APPE", "RETR"):
             res["received"] = await _transfer(client, verb, FNAME, payload, offset, case["chunks"], case["cblock"])
         elif verb == "UPLOAD":
@@ -539,12 +612,16 @@ async def _run_case(net, case, base):
         # the client now holds the completion reply: look at the backend directly, right now
         res["stored"] = store.get(FNAME)
         res["t_done"] = asyncio.get_running_loop().time()
+        if watcher is not None:
+            transfer_done.set()
+            await watcher  # the observer finishes its round before the final observations
+            res["during_inside"] = sum(1 for t, _ in res["during"] if res["t_start"] < t < res["t_done"])
         # the transferring session observes, and a SECOND session (an older one if it looked before)
         res["after_same"] = await _observe(client, FNAME)
         if obs is None:
             obs = aioftp.Client(passive_commands=("epsv",))
             await obs.connect("127.0.0.1", PORT)
-            await obs.login()
+            await obs.login(*WATCHER)
         res["after_other"] = await _observe(obs, FNAME)
         st = await obs.stat(FNAME)
         res["stat_size"] = int(st["size"])
@@ -558,6 +635,7 @@ async def _run_case(net, case, base):
         await client.quit()
     except Exception as e:  # canonicalise: class name only
         res["error"] = type(e).__name__ + ":" + str(e)[:80]
+        res["stored_after_error"] = store.get(FNAME)
         client.close()
     await server.close()
     await net.settle()
@@ -984,6 +1062,29 @@ def gen_session_cases(ctx, scale):
             stall=[rng.choice([0.1, 0.5, 1.1]), rng.choice([0.7, 30.0])], chunks=rng.choice([[], [5]]), cblock=rng.choice([None, 3]),
             _plabel="stalled")
 
+    # -- 3c. another session stats + lists the target WHILE a multi-block transfer is in flight (the transfer is
+    #        slowed to one block per virtual second by a per-user limit; the observer is another user, the observer looks every 0.4-0.7 s)
+    for backend in ("memory", "pathio", "asyncpathio", "buffered"):
+        for verb in ("STOR", "APPE", "RETR"):
+            for bs in (3, 8):
+                payload = bytes(rng.randrange(256) for _ in range(bs * rng.randint(3, 5) + rng.randint(0, 2)))
+                old = bytes(rng.randrange(256) for _ in range(rng.randint(2 * bs, 6 * bs)))
+                off = rng.choice([0, 2, bs + 1]) if verb != "RETR" else rng.choice([0, 2, bs])
+                add(verb=verb, payload=payload, offset=off, old=old, block_size=bs, backend=backend, passive=next(toggle),
+                    throttle={"user_read": bs, "user_write": bs}, observe_during=[rng.choice([0.4, 0.7]), 150],
+                    chunks=rng.choice([[], [bs]]), cblock=rng.choice([None, bs]), _plabel="observed_during")
+
+    # -- 3d. the backend fails AT CLOSE (the file outgrows its quota; writes are buffered, the flush in close() fails
+    #        after a partial flush): files within the limit are stored, bigger ones must NOT be acknowledged
+    for backend in CLOSE_FAULT_BACKENDS:
+        for verb in ("STOR", "APPE"):
+            for n in (0, 3, CLOSE_LIMIT - 1, CLOSE_LIMIT, CLOSE_LIMIT + 1, 3 * CLOSE_LIMIT):
+                for old in (None, bytes(rng.randrange(256) for _ in range(5))):
+                    payload = bytes(rng.randrange(256) for _ in range(n))
+                    off = rng.choice([0, 0, 2]) if old is not None else 0
+                    add(verb=verb, payload=payload, offset=off, old=old, block_size=rng.choice([4, 64]), backend=backend, passive=next(toggle),
+                        chunks=rng.choice([[], [5]]), _plabel="close_fault")
+
     # -- 4. throttles (small limits; virtual time makes them free)
     throttles = [
         {"server_read": 40, "server_write": 40},
@@ -1079,6 +1180,12 @@ def check_case(ctx, case, res, model_out, stream="session"):
     payload, off, old = c["payload"], c["offset"], c["old"]
     rep = jsonable({k: v for k, v in c.items() if not k.startswith("_")})
     upload = verb in ("STOR", "APPE", "UPLOAD")
+    if upload and c["backend"] in CLOSE_FAULT_BACKENDS and len(py_spec_store("STOR" if verb in ("STOR", "UPLOAD") else "APPE", off, payload, old)) > CLOSE_LIMIT:
+        # the backend cannot store this file: its close() fails.  A positive completion reply would be a lie:
+        # the only acceptable outcome is a negative one (451); with a 226 the ordinary clauses below apply.
+        ctx.count("close_fault_cases")
+        if res["error"] is not None and "451" in res["error"]:
+            return
     if res["error"] is not None:
         ctx.violation(f"{verb} failed: {res['error']}", {"key": f"c01-{verb.lower()}-error", "case": rep, "error": res["error"]})
         return
@@ -1192,6 +1299,9 @@ def session_stream(ctx, xcheck, scale, reps=1):
         if c["local_old"] is not None:
             ctx.count("download_onto_existing_local_file")
         ctx.count("observed_before_by_" + str(c["observe_before"]).lower())
+        if c["observe_during"]:
+            ctx.count("observed_during_transfer")
+            ctx.count("observations_inside_a_transfer", res.get("during_inside", 0))
         if c["verb"] in ("STOR", "APPE"):
             ctx.count("old_" + ("missing" if c["old"] is None else "shorter" if len(c["old"]) < c["offset"] + len(c["payload"]) else "equal" if len(c["old"]) == c["offset"] + len(c["payload"]) else "longer"))
         check_case(ctx, case, res, mo)
@@ -1703,7 +1813,9 @@ def correspondence(ctx, scale=None):
         "the transfer (nobody / the transferring session / another session / both), and both sessions do so AFTER the completion reply; (f) REST n + STOR/APPE on a missing file: 3 backends x 2 verbs x offsets "
         "(1, 5, 0) x 3 payloads; (g) 4 fixed + 26 random upload histories over 8 sibling names (same stem, different last suffix, a stored <stem>.part), "
         "single uploads and overlapping pairs with random write interleavings, memory and PathIO, whole directory compared after every 226; "
-        "throttle configurations include the limits 0 (unlimited) and 1 in every scope; (b2) "
+        "throttle configurations include the limits 0 (unlimited) and 1 in every scope; observers (another user: MLST + MLSD + LIST every 0.4/0.7 "
+        "virtual s) DURING multi-block transfers slowed to one block per second, on memory / PathIO / AsyncPathIO / buffering backends; backends "
+        "whose close() fails after a partial flush (buffering and real-file spy, limit 12 bytes) x sizes around the limit; (b2) "
         "timed read traces: 0-6 segments at non-decreasing instants (gaps 0..1000) x scripted wait delays (0..5000) x block size, real "
         "ThrottleStreamIO.read on the virtual clock vs timed_trace (blocks AND instants). A case "
         "is non-trivial when its full input tuple is distinct (hash); every session case moves real bytes through the real code."
@@ -1769,6 +1881,10 @@ def replay(ctx, data):
     c = case_defaults(case)
     verb, payload, off, old = c["verb"], c["payload"], c["offset"], c["old"]
     print("result:", {k: (v.hex()[:120] if isinstance(v, bytes) else v) for k, v in res.items() if k not in ("seg_up", "seg_down")})
+    if (res["error"] and "451" in res["error"] and c["backend"] in CLOSE_FAULT_BACKENDS and verb in ("STOR", "APPE", "UPLOAD")
+            and len(py_spec_store("STOR" if verb in ("STOR", "UPLOAD") else "APPE", off, payload, old)) > CLOSE_LIMIT):
+        print("the backend's close() failed and the upload was answered 451: no positive completion reply, the property holds")
+        return True
     if res["error"]:
         return False
     if verb in ("STOR", "APPE", "UPLOAD"):
